@@ -479,8 +479,20 @@ func (p *Posix) DeleteBucket(_ context.Context, bucket string) error {
 	}
 	verifhook.At("posix.deletebucket.checked")
 
-	// Remove the bucket
-	err = os.RemoveAll(bucket)
+	// Remove the bucket: only the temporary directory is removed
+	// recursively, the bucket directory itself with rmdir, which fails if
+	// an object has been published since the emptiness check
+	err = os.RemoveAll(filepath.Join(bucket, metaTmpDir))
+	if err != nil {
+		return fmt.Errorf("remove bucket temp dir: %w", err)
+	}
+	err = os.Remove(bucket)
+	if errors.Is(err, syscall.ENOTEMPTY) || errors.Is(err, syscall.EEXIST) {
+		return s3err.GetAPIError(s3err.ErrBucketNotEmpty)
+	}
+	if errors.Is(err, fs.ErrNotExist) {
+		return s3err.GetAPIError(s3err.ErrNoSuchBucket)
+	}
 	if err != nil {
 		return fmt.Errorf("remove bucket: %w", err)
 	}
@@ -1782,6 +1794,9 @@ func (p *Posix) CompleteMultipartUpload(ctx context.Context, input *s3.CompleteM
 	verifhook.At("posix.cmu.beforelink")
 	err = f.link()
 	verifhook.At("posix.cmu.linked")
+	if errors.Is(err, s3err.GetAPIError(s3err.ErrNoSuchBucket)) {
+		return nil, s3err.GetAPIError(s3err.ErrNoSuchBucket)
+	}
 	if err != nil {
 		return nil, fmt.Errorf("link object in namespace: %w", err)
 	}
@@ -2966,6 +2981,9 @@ func (p *Posix) PutObject(ctx context.Context, po s3response.PutObjectInput) (s3
 	dir := filepath.Dir(name)
 	if dir != "" {
 		err = backend.MkdirAll(dir, uid, gid, doChown, p.newDirPerm)
+		if errors.Is(err, s3err.GetAPIError(s3err.ErrNoSuchBucket)) {
+			return s3response.PutObjectOutput{}, err
+		}
 		if err != nil {
 			return s3response.PutObjectOutput{}, s3err.GetAPIError(s3err.ErrExistingObjectIsDirectory)
 		}
@@ -3064,6 +3082,9 @@ func (p *Posix) PutObject(ctx context.Context, po s3response.PutObjectInput) (s3
 			ETag:      etag,
 			VersionID: versionID,
 		}, nil
+	}
+	if errors.Is(err, s3err.GetAPIError(s3err.ErrNoSuchBucket)) {
+		return s3response.PutObjectOutput{}, s3err.GetAPIError(s3err.ErrNoSuchBucket)
 	}
 	if err != nil {
 		return s3response.PutObjectOutput{}, s3err.GetAPIError(s3err.ErrExistingObjectIsDirectory)
